@@ -312,7 +312,11 @@ func genC02(t *rapid.T) *Case {
 	return genPolicyAndInput(t, &SpecOpts{Kinds: kinds, MaxOps: 12})
 }
 
-// wellFormedData: the documented shape of a data attribute bluemonday lets through.
+// wellFormedData: a custom data attribute as HTML defines it: the name starts with "data-", has at
+// least one character after the hyphen, is XML-compatible (matches the Name production of XML and
+// holds no colon), holds no ASCII upper-case letter; and, as bluemonday documents, does not go on
+// with "xml". The first five characters being ASCII letters and a hyphen, only what follows needs
+// to be made of XML name characters.
 func wellFormedData(k string) bool {
 	if !strings.HasPrefix(k, "data-") || len(k) <= 5 {
 		return false
@@ -321,9 +325,13 @@ func wellFormedData(k string) bool {
 	if strings.HasPrefix(rest, "xml") {
 		return false
 	}
-	for i := 0; i < len(rest); i++ {
-		c := rest[i]
-		if (c >= 'A' && c <= 'Z') || c == ';' {
+	for _, c := range rest {
+		switch {
+		case c == '-' || c == '.' || c == '_' || (c >= '0' && c <= '9') || (c >= 'a' && c <= 'z'):
+		case c == 0xB7, c >= 0xC0 && c <= 0xD6, c >= 0xD8 && c <= 0xF6, c >= 0xF8 && c <= 0x37D, c >= 0x37F && c <= 0x1FFF,
+			c == 0x200C, c == 0x200D, c == 0x203F, c == 0x2040, c >= 0x2070 && c <= 0x218F, c >= 0x2C00 && c <= 0x2FEF,
+			c >= 0x3001 && c <= 0xD7FF, c >= 0xF900 && c <= 0xFDCF, c >= 0xFDF0 && c <= 0xFFFD, c >= 0x10000 && c <= 0xEFFFF:
+		default:
 			return false
 		}
 	}
